@@ -130,10 +130,21 @@ theorem PInv.mono {p st L L'} (h : PInv p st L) (hs : ∀ x ∈ L, x ∈ L') : P
 theorem PInv.empty (p L) : PInv p PState.empty L :=
   ⟨by simp [PState.empty], by simp [PState.empty], by simp [PState.empty]⟩
 
-theorem findIdx_some {st : PState} {n : Str} {i : Nat} (h : findIdx st n = some i) :
+theorem findIdx_lookup {lim : Option Nat} {st : PState} {n : Str} {i : Nat}
+    (h : findIdx lim st n = some i) : lookupIdx st n = some i := by
+  unfold findIdx at h
+  split at h
+  · rename_i j hj
+    split at h
+    · simp only [Option.some.injEq] at h
+      rw [← h]; exact hj
+    · simp at h
+  · simp at h
+
+theorem findIdx_some {st : PState} {n : Str} {i : Nat} (h : lookupIdx st n = some i) :
     ∃ c, ((c, (valOf n : Int) - 1), i) ∈ st.idx ∧
       (c = zeropadwidth n ∨ (zeropadwidth n = 1 ∧ c = n.length)) := by
-  unfold findIdx at h
+  unfold lookupIdx at h
   simp only at h
   split at h
   · rename_i j hj
@@ -183,15 +194,15 @@ theorem mem_nums_of_range {r : Run} {e : Str} (hr : r.stop = some e) {v : Nat}
 
 /-- the step of `comp` for one prefix: the new number is added to what the elements denote,
 nothing else changes, and the invariant is kept -/
-theorem stepP_spec (p n : Str) (st : PState) (L : List Str) (inv : PInv p st L)
+theorem stepP_spec (lim : Option Nat) (p n : Str) (st : PState) (L : List Str) (inv : PInv p st L)
     (hmem : ∀ x ∈ numsOf st.runs, p ++ x ∈ L)
     (hn : AllDig n) (hsplit : splitNum (p ++ n) = (p, n)) (hnew : p ++ n ∉ L)
     (hne : ∀ r ∈ st.runs, r.start ≠ []) :
-    (numsOf (stepP st n).runs).Perm (numsOf st.runs ++ [n]) ∧ PInv p (stepP st n) (L ++ [p ++ n]) := by
+    (numsOf (stepP lim st n).runs).Perm (numsOf st.runs ++ [n]) ∧ PInv p (stepP lim st n) (L ++ [p ++ n]) := by
   have inv' : PInv p st (L ++ [p ++ n]) := inv.mono (fun x hx => by simp [hx])
   unfold stepP
   simp only
-  cases hfi : findIdx st n with
+  cases hfi : findIdx lim st n with
   | none =>
     simp only
     refine ⟨by simp [numsOf, List.flatMap_append, nums_none], ?_, ?_, ?_⟩
@@ -227,7 +238,7 @@ theorem stepP_spec (p n : Str) (st : PState) (L : List Str) (inv : PInv p st L)
         rw [List.getElem?_append_left this]; exact hr
   | some i =>
     simp only
-    obtain ⟨c, hci, hc⟩ := findIdx_some hfi
+    obtain ⟨c, hci, hc⟩ := findIdx_some (findIdx_lookup hfi)
     obtain ⟨r, hr, w', hw, hlo, hhi, hw1, hw2⟩ := inv.idx_ok c _ i hci
     have hv : valOf n = w' + 1 := by omega
     have hrmem : r ∈ st.runs := List.mem_of_getElem? hr
